@@ -223,7 +223,13 @@ class PerformanceTable:
         assert isinstance(check_neg, pd.DataFrame)
 
         def check_coverage(df, label):
-            if len(df.fl.unique()) * len(df.mass.unique()) != len(df):
+            # Every (FL, mass) node must occur exactly once: a repeated node
+            # next to a missing one leaves the row count unchanged.
+            n_nodes = len(df.drop_duplicates(subset=['fl', 'mass']))
+            if (
+                n_nodes != len(df)
+                or len(df.fl.unique()) * len(df.mass.unique()) != len(df)
+            ):
                 raise ValueError(
                     f'Performance data at {label} ROC does not have full coverage'
                 )
